@@ -26,6 +26,28 @@ class TooManyPaths(Exception):
     pass
 
 
+# ---------------------------------------------------------------- helper inlining (vocabulary)
+
+_VOCAB = None
+MAX_INLINE_DEPTH = 5
+
+
+def vocab():
+    """def paths of the reference tree (spec/vocabulary.json). Rule tables are stated over these names; a crate-local
+    callee that is *not* in the vocabulary is a helper introduced by a later edit (extract-function refactoring, new
+    private fn, new `async fn`): the walker looks through it, so a table does not change because code moved into a helper."""
+    global _VOCAB
+    if _VOCAB is None:
+        import json
+        import os
+        p = os.path.join(os.path.dirname(os.path.dirname(os.path.abspath(__file__))), "spec", "vocabulary.json")
+        try:
+            _VOCAB = set(json.load(open(p))["fns"])
+        except Exception:
+            _VOCAB = set()
+    return _VOCAB
+
+
 # ---------------------------------------------------------------- expression helpers
 
 TRANSPARENT_UNARY = (
@@ -131,7 +153,11 @@ class Path:
 
 class Walker:
     def __init__(self, fn, max_paths=20000, skip_logging=True, follow_panics=True, inline=None,
-                 prog=None):
+                 prog=None, cont=None, stack=(), env1=None):
+        self.inline_stop = inline   # None: inline only helpers outside the vocabulary; regex: inline every local fn except matches
+        self.env1 = env1            # initial environment override (closure application: {1: closure aggregate, 2: argument, ...})
+        self.cont = cont        # (caller walker, call terminator, mode) when this walker runs an inlined helper
+        self.stack = stack + (fn.path,)
         self.fn = fn
         self.body = fn.body
         if self.body is None:
@@ -323,7 +349,10 @@ class Walker:
         return any(m in LOG_MACROS or "tracing::" in m or m == "instrument" for m in macs)
 
     def run(self):
-        st = {"env": self.init_env(), "heap": {}, "events": [], "atoms": [], "blocks": []}
+        env = self.init_env()
+        if self.env1:
+            env.update(self.env1)
+        st = {"env": env, "heap": {}, "events": [], "atoms": [], "blocks": [], "ret": None}
         self._walk(0, st)
         return self.paths
 
@@ -334,7 +363,45 @@ class Walker:
 
     def _fork(self, st):
         return {"env": dict(st["env"]), "heap": st["heap"], "events": list(st["events"]),
-                "atoms": list(st["atoms"]), "blocks": list(st["blocks"])}
+                "atoms": list(st["atoms"]), "blocks": list(st["blocks"]), "ret": st.get("ret")}
+
+    # ---- inlining of helpers that are not part of the reference vocabulary
+    def _inline_target(self, f, want_coroutine=False, did=None):
+        prog = getattr(self.fn, "prog", None)
+        if prog is None or len(self.stack) > MAX_INLINE_DEPTH:
+            return None
+        cands = [did] if did else [f.get("resolved"), f.get("path")]
+        for cand in cands:
+            if not cand or cand in self.stack:
+                continue
+            if self.inline_stop is None:
+                if cand in vocab():
+                    continue
+            elif self.inline_stop.search(cand):
+                continue
+            l = prog.fns.get(cand)
+            if l and len(l) == 1 and l[0].body is not None and bool(l[0].is_coroutine) == want_coroutine:
+                return l[0]
+        return None
+
+    def _inline(self, st, g, env, t, mode):
+        sub = Walker(g, max_paths=self.max_paths, skip_logging=self.skip_logging, follow_panics=self.follow_panics,
+                     cont=(self, t, mode), stack=self.stack, inline=self.inline_stop)
+        sub.paths = self.paths
+        st2 = {"env": env, "heap": st["heap"], "events": st["events"], "atoms": st["atoms"], "blocks": [],
+               "ret": (st["env"], st["blocks"], st.get("ret"))}
+        sub._walk(0, st2)
+
+    def _return_to_caller(self, st):
+        caller, t, mode = self.cont
+        val = self.read_local(st, 0)
+        if mode == "await":
+            val = ("agg", "adt", "std::task::Poll", "Ready", 0, (val,))
+        env_c, blocks_c, ret_c = st["ret"]
+        st_c = {"env": dict(env_c), "heap": st["heap"], "events": st["events"], "atoms": st["atoms"],
+                "blocks": list(blocks_c), "ret": ret_c}
+        caller.assign(st_c, t["dest"], val)
+        caller._walk(t["t"], st_c)
 
     def _walk(self, bi, st):
         while True:
@@ -365,6 +432,9 @@ class Walker:
                 bi = t["t"]
                 continue
             if k == "return":
+                if self.cont is not None:
+                    self._return_to_caller(st)
+                    return
                 self._finish(st, ("return", self.read_local(st, 0)))
                 return
             if k == "unreachable":
@@ -425,6 +495,12 @@ class Walker:
                 st["events"].append(("await", fut, bi, loc_of(at), None))
                 self._finish(st, ("pending",))
                 return None
+            if isinstance(fut, tuple) and fut[0] == "agg" and fut[1] == "coroutine" and t["t"] is not None:
+                g = self._inline_target(f, want_coroutine=True, did=fut[2])
+                if g is not None:
+                    # awaiting a local `async` helper that is not in the vocabulary: look through it
+                    self._inline(st, g, {1: fut}, t, "await")
+                    return None
             val = ("poll", fut, bi)
             st["events"].append(("await", fut, bi, loc_of(at), f.get("targs", [None])[0]))
         elif decl == "std::ops::Try::branch":
@@ -440,6 +516,10 @@ class Walker:
             if decl.endswith("into_future"):
                 pass
         else:
+            g = self._inline_target(f) if t["t"] is not None else None
+            if g is not None and len(args) == g.body["argc"]:
+                self._inline(st, g, {i + 1: a for i, a in enumerate(args)}, t, "call")
+                return None
             val = ("call", name, args, bi)
             st["events"].append(("call", name, args, bi, loc_of(at), f, len(st["atoms"])))
         if t["t"] is None:
